@@ -77,6 +77,24 @@ def extract_all(data: bytes, html: bool, dup: bool):
     return canon(impl_pkg.observe(data, html, dup, payloads)), case, payloads
 
 
+def reencode(data: bytes, rng: random.Random) -> bytes:
+    """the same archive with some XML members re-serialised in another character encoding"""
+    zin = zipfile.ZipFile(io.BytesIO(data))
+    bio = io.BytesIO()
+    with zipfile.ZipFile(bio, "w") as zout:
+        for info in zin.infolist():
+            blob = zin.read(info)
+            if info.filename.endswith((".xml", ".rels")) and info.filename != "[Content_Types].xml" and rng.random() < 0.5:
+                try:
+                    root = etree.fromstring(blob)
+                    enc = rng.choice(["UTF-16", "UTF-16", "ISO-8859-1", None])
+                    blob = etree.tostring(root, xml_declaration=True, encoding=enc) if enc else etree.tostring(root)
+                except (etree.XMLSyntaxError, UnicodeEncodeError, ValueError):
+                    pass
+            zout.writestr(info, blob)
+    return bio.getvalue()
+
+
 def eval_save(state, arg):
     """C16"""
     stream, sub = arg
@@ -89,6 +107,12 @@ def eval_save(state, arg):
         pkg = docgen.gen_package(random.Random(sub), kn)
         data = pkg.to_bytes()
         feats = set(pkg.features)
+        if rng.random() < 0.25:
+            # parts stored in another encoding (UTF-16 with BOM and declaration, ISO-8859-1, no
+            # declaration): what save() writes must still be a readable archive that extracts the
+            # same (round-6 seed C16-declaration-with-source-encoding)
+            data = reencode(data, rng)
+            feats.add("parts_reencoded")
     res = {"stream": stream, "sub": sub, "features": sorted(feats), "fails": [], "corr": None,
            "key": hashlib.sha256(data).hexdigest()[:16]}
     html = bool(rng.getrandbits(1)) if stream != "corpus" else False
@@ -226,6 +250,10 @@ def stretches(root):
     return [e.text for e in root.iter() if isinstance(e.tag, str) and e.tag.endswith("}t") and e.text]
 
 
+MARKER_ALPHABET = set('<a href="#"></a>----footnote endnote) Image alt text---->< media/image .png .jpeg .emf .wmf '
+                      'mailto: https://example.com same x@y.z a.b/c?d=e&f=g &amp;&lt;&gt; \t\n--')
+
+
 def eval_replace(state, arg):
     stream, sub, edge = arg
     rng = random.Random(sub)
@@ -294,6 +322,22 @@ def eval_replace(state, arg):
                 else:
                     old = rng.choice(["zzzz", "not there", "@@"])
                 new = rng.choice(["", "X", "new text", "a\nb", "1\n2\n3", "<&>", old + old, "é"])
+                if all_st and rng.random() < 0.3:
+                    # a short needle that occurs in SEVERAL text nodes (often of one merged run, with a
+                    # tab or break between them), replaced by several lines: each hit turns into several
+                    # nodes, which moves the positions of the later hits (round-6 seed
+                    # C17-replace-index-enumerate-snapshot)
+                    for _try in range(12):
+                        st = rng.choice(all_st)
+                        a = rng.randrange(len(st))
+                        sub_ = st[a:a + rng.choice([1, 1, 2, 3])]
+                        # ... and that cannot occur in a generated marker, label or link target (those are
+                        # not literal text: a needle occurring there puts the case outside the domain)
+                        if sub_ and sum(x.count(sub_) for x in all_st) >= 2 and not any(
+                                ch in MARKER_ALPHABET or ch.isdigit() for ch in sub_):
+                            old = sub_
+                            new = rng.choice(["a\nb", "1\n2\n3", "a\nb", "X"])
+                            break
                 if edge == "needle_in_comment":
                     old = "\ue000"
                     feats.add("needle_in_comment")
